@@ -444,6 +444,13 @@ class CompilerPassGenerateCode(CompilerPass):
 
         func_data = self.data.functions[fname]
 
+        for arg in node.args.args:
+            if arg.name in symbols.__dict__:
+                raise CompilerError(
+                    f"Function argument name {arg.name} conflicts with a built-in name",
+                    arg,
+                )
+
         if self.data.options.inline_functions and func_data.can_inline:
             ret_value = self.get_register_name() if func_data.has_return_value else ""
             sym_data.code_expr = ret_value
@@ -480,11 +487,6 @@ class CompilerPassGenerateCode(CompilerPass):
                         IC10(
                             "get", ["db", _RETURN_VALUE_ADDRESS - 1 - i], sym, indent=1
                         )
-                    )
-                if arg.name in symbols.__dict__:
-                    raise CompilerError(
-                        f"Function argument name {arg.name} conflicts with a built-in name",
-                        arg,
                     )
                 sym.nodes_writing.append(arg)
                 arg._ndata.result = sym
